@@ -2,7 +2,7 @@
 # Applies every kept seeded change to /repo in turn, runs the quick check of its property, undoes it, and records the verdict.
 OUT=/verif/seeded/RESULTS.tsv
 printf "seed\texit\tverdict\twall_s\n" > $OUT
-for d in /verif/seeded/C??/A /verif/seeded/C??/B; do
+for d in /verif/seeded/C??/A /verif/seeded/C??/B /verif/seeded/C??/C /verif/seeded/C??/D; do
   id=$(echo $d | cut -d/ -f4); x=$(basename $d)
   cd /repo && git checkout -q -- . && git apply $d/patch.diff 2>/dev/null || { printf "$id/$x\t-\tpatch-does-not-apply\t0\n" >> $OUT; continue; }
   t0=$(date +%s)
